@@ -143,7 +143,9 @@ def _function_over_one_var(repr_func, raw_func, x, out=None, out_like=None, sizi
     else:
         config = x.config
 
-    if method == 'repr' or x.scaled or n_frac is None:
+    # (objects with scale or bias, as operand or as target, work with values instead of raw codes)
+    _scaled = x.scaled or (out is not None and out.scaled) or (out_like is not None and out_like.scaled)
+    if method == 'repr' or _scaled or n_frac is None:
         raw = False
         val = repr_func(x.get_val(), **kwargs)
     elif method == 'raw':
@@ -195,7 +197,9 @@ def _function_over_two_vars(repr_func, raw_func, x, y, out=None, out_like=None, 
     else:
         config = x.config
 
-    if method == 'repr' or x.scaled or n_frac is None:
+    # (objects with scale or bias, as operands or as targets, work with values instead of raw codes)
+    _scaled = x.scaled or y.scaled or (out is not None and out.scaled) or (out_like is not None and out_like.scaled)
+    if method == 'repr' or _scaled or n_frac is None:
         raw = False
         val = repr_func(x.get_val(), y.get_val(), **kwargs)
     elif method == 'raw':
